@@ -99,25 +99,8 @@ func OracleC01(run *common.Run, id string, res *Result) int {
 	sort.Ints(bad)
 	if len(missing) > 0 {
 		sig := "closure-missing"
-		if c.Stream == "twin" && DigestKeyed(c.Dst) {
-			// F12: a pre-populated blob with the bytes of a reachable manifest makes Exists(manifest) true.
-			twinHit := false
-			for _, t := range c.D0 {
-				a := g.Nodes[t].TwinOf
-				if a >= 0 && reach[a] && !inSet(c.D0, a) {
-					twinHit = true
-				}
-			}
-			sim := keySim(g, c.D0, res.Root2)
-			same := true
-			for _, n := range g.Nodes {
-				if !n.Foreign() && sim[n.Desc.Digest.String()] != res.Present[n.ID] {
-					same = false
-				}
-			}
-			if twinHit && same {
-				sig = "twin-prepopulated-dst"
-			}
+		if f12Explains(res, missing) {
+			sig = "twin-digest-exists"
 		}
 		fail(sig, fmt.Sprintf("copy %s->%s mode=%s root=%d returned nil but reachable nodes %v are not in the destination (d0=%v graph=%v)",
 			c.Src, c.Dst, c.Mode, res.Root2, missing, c.D0, g.Describe()))
@@ -146,6 +129,78 @@ func OracleC01(run *common.Run, id string, res *Result) int {
 		}
 	}
 	return fails
+}
+
+// digestKeyedFor: does the destination answer Exists(any descriptor with t's digest) = true once
+// node t is stored?  OCI layouts: always (blobs/<alg>/<hex>).  File store: when t was pushed with a
+// title (digestToPath).  Memory store and registries (manifests and blobs apart): no.
+func digestKeyedFor(c *Case, t int) bool {
+	switch c.Dst {
+	case "oci", "ocire":
+		return true
+	case "file":
+		return inSet(c.Titled, t)
+	}
+	return false
+}
+
+// f12Explains recognises the mechanism of the known finding twin-digest-exists, and nothing else:
+// dst.Exists(M) answered true for a manifest M that is not in the destination as such (neither
+// pre-populated nor pushed before the answer) because content with the same digest under another
+// media type is (pre-populated, or pushed earlier in this very call), so M's sub-DAG was skipped;
+// and every missing node is owed to such a skip (it is not reachable from the root once the
+// falsely-present manifests are cut off).
+func f12Explains(res *Result, missing []int) bool {
+	c, g := res.Case, res.G
+	stored := map[int]int{}
+	for i, s := range res.Toks {
+		t := parseTok(s)
+		if (t.op == "PE" && t.b == "k") || (t.op == "ME" && (t.a == "m" || t.a == "c")) {
+			if _, ok := stored[t.n]; !ok {
+				stored[t.n] = i
+			}
+		}
+	}
+	fs := map[int]bool{}
+	for i, s := range res.Toks {
+		t := parseTok(s)
+		if t.op != "XE" || t.a != "1" || t.n < 0 || !g.Nodes[t.n].IsManifest() || inSet(c.D0, t.n) {
+			continue
+		}
+		if at, ok := stored[t.n]; ok && at < i {
+			continue
+		}
+		for _, w := range g.Nodes {
+			if w.ID == t.n || w.Desc.Digest != g.Nodes[t.n].Desc.Digest || w.Desc.MediaType == g.Nodes[t.n].Desc.MediaType {
+				continue
+			}
+			at, ok := stored[w.ID]
+			if digestKeyedFor(c, w.ID) && (inSet(c.D0, w.ID) || (ok && at < i)) {
+				fs[t.n] = true
+			}
+		}
+	}
+	if len(fs) == 0 {
+		return false
+	}
+	owed := map[int]bool{}
+	var visit func(i int)
+	visit = func(i int) {
+		if owed[i] || g.Nodes[i].Foreign() || fs[i] {
+			return
+		}
+		owed[i] = true
+		for _, s := range g.Nodes[i].Succ {
+			visit(s)
+		}
+	}
+	visit(res.Root2)
+	for _, m := range missing {
+		if owed[m] {
+			return false
+		}
+	}
+	return true
 }
 
 type tok struct {
@@ -301,7 +356,7 @@ func OracleC04(run *common.Run, id string, res *Result) int {
 
 // Budget of one harness run.
 type Budget struct {
-	Main, Contention, Twin, CbFail, Mount, Remote, RootPresent, Extended int
+	Main, Contention, Twin, CbFail, Mount, Remote, RootPresent, Extended, TwinReach int
 	Sched, SchedReps                      int // graphs run under testing/synctest with the PRNG-controlled scheduler, extra schedules per graph
 	Small                                 bool // small-scope enumeration (graphs <= 3 nodes, sampled 4-node graphs) x roots x closed subsets
 	Reps                           int // extra schedules (latency seeds) per generated case
@@ -319,12 +374,21 @@ func Drive(run *common.Run, prop string, b Budget) {
 	// by one; hash the seed instead.
 	h := sha256.Sum256([]byte(fmt.Sprintf("copyh/%s/%d", prop, run.Seed)))
 	rootRand := common.NewRand(binary.LittleEndian.Uint64(h[:8]))
+	selfTested := map[uint64]bool{}
 	one := func(c *Case) {
 		id := run.NewID()
 		if js, err := json.Marshal(c); err == nil {
 			os.WriteFile(currentCasePath(run.Dir), js, 0o644)
 		}
 		res := Execute(c)
+		if res.SetupErr == nil && res.G != nil && !selfTested[c.GenSeed^uint64(len(c.Graph))] {
+			// the generator's edge list must be what content.Successors decodes (ground truth sanity)
+			selfTested[c.GenSeed^uint64(len(c.Graph))] = true
+			if err := res.G.SelfTest(); err != nil {
+				// content.Successors disagrees with the generator's edge list (the link kinds of the property)
+				run.OracleFail(id, "successors-differ", fmt.Sprintf("content.Successors vs the generator's links (stream %s): %v", c.Stream, err), replayDoc{Case: c})
+			}
+		}
 		if res.SetupErr != nil {
 			panic(fmt.Errorf("harness setup failed (not a property failure): %w", res.SetupErr))
 		}
@@ -400,6 +464,15 @@ func Drive(run *common.Run, prop string, b Budget) {
 			}
 			run.Count(fmt.Sprintf("extended-copy roots=%d", min(nroots, 4)))
 		}
+		if c.Dst == "file" && len(c.Titled) > 0 {
+			// a file-store destination is digest-keyed for titled blobs only and not symmetrically (a titled
+			// blob answers for every descriptor with its digest, not the other way round): outside the
+			// model's symmetric key -- judged by the oracle only
+			run.Count("file-dst-titled-twin (oracle only)")
+			run.Case(id, "0 0 u 0 - - - - rp="+c.Stream, "UNJUDGED")
+			oracle(run, id, res)
+			return
+		}
 		run.Case(id, ModelInput(res), implLine(res))
 		run.TracesAgainstImpl++
 		oracle(run, id, res)
@@ -468,6 +541,7 @@ func Drive(run *common.Run, prop string, b Budget) {
 	stream("mount", b.Mount)
 	stream("remote", b.Remote)
 	stream("twin", b.Twin)
+	stream("twinreach", b.TwinReach)
 	if T != nil {
 		// controlled schedules: several PRNG-chosen release orders per graph
 		for i := 0; i < b.Sched; i++ {
